@@ -111,6 +111,8 @@ FlagClauses(e) ==
              <<(IF e.cls = "CallMacroNode" THEN "C41.call-completed-without-running-the-body@" ELSE "C02.completed-without-running@") \o e.site,
                \* an instruction completes only after it ran in this invocation
                e.tracked /\ e.cls # "MacroNode" => e.n \in began>>,
+             <<"C14.injected-completed-without-running-its-lines",      \* injected code runs once: all of it, unless a line of it failed
+               e.cls = "InjectedNode" => (SetOfSeq(e.kids) \subseteq S \/ SetOfSeq(e.kids) \cap Fl # {})>>,
              <<"C02.trailing-whitespace-passed@" \o e.site, ~(e.ws /\ e.trail)>>,
              <<"C05.block-completes-only-after-end" \o e.suffix, Blind \/ (e.cls = "BlockNode" => e.n \in E)>>,
              <<"C05.end-block-ends-innermost" \o e.suffix,      \* the innermost locked block, and nothing else, is (or already was) ended
